@@ -28,12 +28,14 @@ def run_system(decl, sc, x0, u, p, intg):
     return np.array(r['xf']).reshape(-1), np.array(r['qf']).reshape(-1), b
 
 
-def run_dc(decl, sc, x0, u, p, scheme, degree, N, growth):
-    """The simulation problem (initial state and control fixed) transcribed by DirectCollocation and solved."""
+def run_dc(decl, sc, x0, u, p, scheme, degree, N, growth, history=False):
+    """The simulation problem (initial state and control fixed) transcribed by DirectCollocation and solved.
+    history: the problem is first solved on another horizon, then moved to the right one with set_t0 / set_T."""
     from rockit import DirectCollocation, UniformGrid, GeometricGrid
     b = quiet(build, dict(decl), 'ipopt', False)
     ocp = b.ocp
-    ocp.set_t0(fv(sc['t0'])); ocp.set_T(fv(sc['T']))
+    if history: ocp.set_t0(fv(sc['t0']) + 1.5); ocp.set_T(2.5 * fv(sc['T']))
+    else: ocp.set_t0(fv(sc['t0'])); ocp.set_T(fv(sc['T']))
     I = ocp.integral(mx(b, decl['quads'][0]))
     # the control is pinned by the objective (an equality would leave IPOPT without degrees of freedom)
     ocp.add_objective(ocp.sum((b.u[0] - u) ** 2))
@@ -42,7 +44,14 @@ def run_dc(decl, sc, x0, u, p, scheme, degree, N, growth):
     ocp.solver('ipopt', {"print_time": False, "ipopt": {"print_level": 0, "sb": "yes", "tol": 1e-12}})
     ocp.method(DirectCollocation(N=N, M=sc['M'], scheme=scheme, degree=degree,
                                  grid=UniformGrid() if growth == 1 else GeometricGrid(growth)))
-    sol = quiet(ocp.solve)
+    def solve():
+        # the verdict is on the numbers: a solver that stops on a tiny search direction has still solved the linear system
+        try: return quiet(ocp.solve)
+        except RuntimeError: return ocp.non_converged_solution
+    sol = solve()
+    if history:
+        ocp.set_t0(fv(sc['t0'])); ocp.set_T(fv(sc['T']))
+        sol = solve()
     xf = [float(np.array(sol.sample(xi, grid='control')[1]).reshape(-1)[-1]) for xi in b.x]
     return xf, float(sol.value(I))
 
@@ -80,13 +89,13 @@ def replay(rec):
         # DirectCollocation with 4 collocation points reproduces these flows exactly: the states are polynomials of degree <= 4
         # (F1, F2) or pure quadratures of degree <= 2d-2 (F4), and so is the integrand -- on any grid and subdivision
         for scheme in ('radau', 'legendre'):
-            for N, growth in ((1, 1), (2, 1), (3, 2)):
+            for N, growth, hist in ((1, 1, False), (2, 1, False), (3, 2, False), (2, 2, True)):
                 if (sc['M'] > 2 and N > 1) or sc['M'] > 4: continue
                 try:
-                    xf, qf = run_dc(decl, sc, x0, u, rec['p'], scheme, 4, N, growth)
+                    xf, qf = run_dc(decl, sc, x0, u, rec['p'], scheme, 4, N, growth, hist)
                     ok = all(rel_close(a, fv(e), 1e-7) for a, e in zip(xf, rec['exact']['xf'])) and rel_close(qf, fv(rec['exact']['qf'][0]), 1e-7)
-                    res.append(('C03.b:collocation:%s' % scheme, 'ok' if ok else 'mismatch', 'N=%d growth=%d M=%d: xf=%s integral=%s, exact xf=%s integral=%s' % (
-                        N, growth, sc['M'], xf, qf, [fv(e) for e in rec['exact']['xf']], fv(rec['exact']['qf'][0]))))
+                    res.append(('C03.b:collocation:%s' % scheme, 'ok' if ok else 'mismatch', 'N=%d growth=%d M=%d%s: xf=%s integral=%s, exact xf=%s integral=%s' % (
+                        N, growth, sc['M'], ' after a horizon edit' if hist else '', xf, qf, [fv(e) for e in rec['exact']['xf']], fv(rec['exact']['qf'][0]))))
                 except Exception as e:
                     res.append(('C03.b:collocation:%s' % scheme, 'error', '%s: %s' % (type(e).__name__, (str(e).splitlines() or [''])[-1][:160])))
         # ... and with 2 points it is a scheme of order 3 (radau) / 4 (legendre): the error on F4 must shrink at that rate
